@@ -107,3 +107,125 @@ void x_fmt_table(octet* out, unsigned lo, unsigned hi)
 		for (n = 1; n <= 300; ++n)
 			out[(size_t)(mod - lo) * 300 + (n - 1)] = (octet)((beltFMT_keep(mod, 2 * n) - base) / 8 - 1);
 }
+
+/* ---- EC: conversions and in-executor all-pairs sweep
+   points are passed as octet strings (x || y, no octets each, little-endian field encoding);
+   out record per instance: flag (1 = affine, 0 = O) || x || y   (1 + 2*no octets) */
+bool_t x_ecFrom(word* b, const octet* a, const ec_o* ec, void* st) { return ecFrom(b, a, ec, st); }
+bool_t x_ecTo(octet* b, word* a, const ec_o* ec, void* st) { return ecTo(a, a, ec, st) ? (memMove(b, a, 2 * ec->f->no), TRUE) : FALSE; }
+
+static void x_scale(word* pt, const word* lam, const ec_o* ec, unsigned kind, void* st)
+{
+	/* kind 0: Jacobian (X l^2, Y l^3, Z l); kind 1: Lopez-Dahab (X l, Y l^2, Z l) */
+	const qr_o* f = ec->f;
+	size_t n = f->n;
+	word* t = (word*)malloc(O_OF_W(n) + 1);
+	if (kind == 0)
+	{
+		qrSqr(t, lam, f, st);
+		qrMul(pt, pt, t, f, st);
+		qrMul(t, t, lam, f, st);
+		qrMul(pt + n, pt + n, t, f, st);
+		qrMul(pt + 2 * n, pt + 2 * n, lam, f, st);
+	}
+	else
+	{
+		qrMul(pt, pt, lam, f, st);
+		qrSqr(t, lam, f, st);
+		qrMul(pt + n, pt + n, t, f, st);
+		qrMul(pt + 2 * n, pt + 2 * n, lam, f, st);
+	}
+	free(t);
+}
+
+/* op: 0 add, 1 adda, 2 sub, 3 suba, 4 AddAA, 5 SubAA (binary: all ordered pairs, index npts = O where representable)
+       10 dbl, 11 dbla, 12 tpl, 13 neg, 14 NegA (unary)
+   alias: 0 none, 1 c==a, 2 c==b, 3 a==b (same pointer; only pairs i == j) */
+size_t x_ec_sweep(octet* out, const ec_o* ec, const octet* pts, size_t npts, unsigned op, unsigned alias,
+	const octet* lambda, unsigned kind)
+{
+	const qr_o* f = ec->f;
+	size_t n = f->n, no = f->no, d = ec->d, rec = 1 + 2 * no, cnt = 0, i, j;
+	void* st = malloc(ec->deep ? ec->deep : 1);
+	word* lam = (word*)malloc(O_OF_W(n) + 1);
+	word* A = (word*)malloc(O_OF_W(d * n) + 1);
+	word* B = (word*)malloc(O_OF_W(d * n) + 1);
+	word* C = (word*)malloc(O_OF_W(d * n) + 1);
+	word* aff = (word*)malloc(O_OF_W(2 * n) + 1);
+	bool_t unary = op >= 10;
+	size_t lim_i = (op == 1 || op == 3 || op == 0 || op == 2 || op == 10 || op == 12 || op == 13) ? npts + 1 : npts;
+	size_t lim_j = unary ? 1 : ((op == 0 || op == 2) ? npts + 1 : npts);
+	if (lambda)
+		qrFrom(lam, lambda, f, st);
+	for (i = 0; i < lim_i; ++i)
+		for (j = 0; j < lim_j; ++j)
+		{
+			word *pa = A, *pb = B, *pc = C;
+			bool_t ok = TRUE, proj_res = TRUE;
+			if (alias == 3 && (unary || i != j))
+				continue;
+			/* operand a */
+			if (op == 4 || op == 5 || op == 11 || op == 14)
+			{
+				qrFrom(A, pts + i * 2 * no, f, st);
+				qrFrom(A + n, pts + i * 2 * no + no, f, st);
+			}
+			else if (i == npts)
+				ecSetO(A, ec), wwSetZero(A, 2 * n);
+			else
+			{
+				ecFrom(A, pts + i * 2 * no, ec, st);
+				if (lambda)
+					x_scale(A, lam, ec, kind, st);
+			}
+			/* operand b */
+			if (!unary)
+			{
+				if (op == 1 || op == 3 || op == 4 || op == 5)
+				{
+					qrFrom(B, pts + j * 2 * no, f, st);
+					qrFrom(B + n, pts + j * 2 * no + no, f, st);
+				}
+				else if (j == npts)
+					ecSetO(B, ec), wwSetZero(B, 2 * n);
+				else
+				{
+					ecFrom(B, pts + j * 2 * no, ec, st);
+					if (lambda)
+						x_scale(B, lam, ec, kind, st), x_scale(B, lam, ec, kind, st);
+				}
+			}
+			if (alias == 1) pc = pa;
+			else if (alias == 2 && !unary) pc = pb;
+			else if (alias == 3) pb = pa;
+			switch (op)
+			{
+			case 0: ecAdd(pc, pa, pb, ec, st); break;
+			case 1: ecAddA(pc, pa, pb, ec, st); break;
+			case 2: ecSub(pc, pa, pb, ec, st); break;
+			case 3: ecSubA(pc, pa, pb, ec, st); break;
+			case 4: ok = (kind == 0 ? ecpAddAA : ec2AddAA)(pc, pa, pb, ec, st); proj_res = FALSE; break;
+			case 5: ok = (kind == 0 ? ecpSubAA : ec2SubAA)(pc, pa, pb, ec, st); proj_res = FALSE; break;
+			case 10: ecDbl(pc, pa, ec, st); break;
+			case 11: ecDblA(pc, pa, ec, st); break;
+			case 12: ec->tpl(pc, pa, ec, st); break;
+			case 13: ecNeg(pc, pa, ec, st); break;
+			case 14: (kind == 0 ? ecpNegA : ec2NegA)(pc, pa, ec); proj_res = FALSE; break;
+			}
+			if (proj_res)
+			{
+				ok = ecToA(aff, pc, ec, st);
+				if (ok)
+					qrTo(out + cnt * rec + 1, aff, f, st), qrTo(out + cnt * rec + 1 + no, aff + n, f, st);
+			}
+			else if (ok)
+				qrTo(out + cnt * rec + 1, pc, f, st), qrTo(out + cnt * rec + 1 + no, pc + n, f, st);
+			out[cnt * rec] = ok ? 1 : 0;
+			if (!ok)
+				memSetZero(out + cnt * rec + 1, 2 * no);
+			++cnt;
+		}
+	free(st), free(lam), free(A), free(B), free(C), free(aff);
+	return cnt;
+}
+bool_t x_ec_has_tpl(const ec_o* ec) { return ec->tpl != 0; }
